@@ -307,8 +307,8 @@ class Interp:
             except RecursionError:
                 raise Unsupported('recursion too deep for the interpreter')
             except Exception as ex:
-                if type(ex).__name__ == 'AnalysisError':
-                    raise
+                if type(ex).__module__ not in ('builtins', 're', 'json.decoder', 'sre_constants', 're._constants'):
+                    raise          # raised on purpose by a rule's stand-in (an exit marker, an AnalysisError): the rule's business
                 # an operation of the evaluated code raised (a % with too few arguments, a missing key ...): so would the real code
                 r = Raised('evaluated code raises %s: %s' % (type(ex).__name__, ex))
                 r.excname = type(ex).__name__
